@@ -35,6 +35,13 @@ def gen(tier, rng):
         m, known = D.family_doc("introspection", rng, ext)
         body = D.render(D.obj(D.shuffled(m + D.unknown_members(rng, known), rng)), rng)
         out.append((c05.http_line("async" if i % 2 else "sync", "introspect", ext, 200, rng.choice([None, b"application/json"]), body), "valid-model-http"))
+    out += c05.source_literal_http(["introspect"], rng)
+    # integers that are new in the source (gen/srclit.py) as timestamps (seconds; and the same instant in milliseconds)
+    from gen import srclit as SL
+    for k in SL.sizes(limit=None, lo=0):
+        for f in ("exp", "iat", "nbf"):
+            for t in (k, -k, k * 1000, 1700000000 + k):
+                out.append((D.decode_line("introspection", False, D.render(D.obj([("active", True), (f, t)]), rng)), "source-literal/timestamp"))
     # large, valid documents through a 200 reply (around and beyond 64 KiB): accepted like small ones
     for size in (65000, 65537, 70000):
         m_, known_ = D.family_doc("introspection", rng, False)
